@@ -126,13 +126,16 @@ def simulate(ctx, module, cfg, num, depth, seed):
     import tempfile
     import shutil
     md = tempfile.mkdtemp(prefix='sim_', dir=ctx.tmp)
-    cmd = ['java', '-XX:+UseSerialGC', '-Xmx2g', '-cp', TLA_CP, 'tlc2.TLC', '-simulate', 'num=%d' % num,
+    jtmp = md + '_jtmp'
+    os.makedirs(jtmp, exist_ok=True)
+    cmd = ['java', '-Djava.io.tmpdir=' + jtmp, '-XX:+UseSerialGC', '-Xmx2g', '-cp', TLA_CP, 'tlc2.TLC', '-simulate', 'num=%d' % num,
            '-depth', str(depth), '-workers', '1', '-seed', str(seed), '-metadir', md, '-noGenerateSpecTE',
            '-config', cfg, module]
     e = dict(os.environ)
     e.pop('JAVA_TOOL_OPTIONS', None)
     p = subprocess.run(cmd, cwd=SPEC, env=e, stdout=subprocess.PIPE, stderr=subprocess.STDOUT, text=True, timeout=1800)
     shutil.rmtree(md, ignore_errors=True)
+    shutil.rmtree(jtmp, ignore_errors=True)
     out = p.stdout
     if 'Error:' in out:
         print(out[-3000:])
